@@ -205,7 +205,9 @@ func (g *opGen) mirror(t *fedType) []string {
 
 func sharedKey(t gTypeRef) string {
 	k := "o_" + t.Name
-	if t.List {
+	if t.List && t.Nested {
+		k += "_ll"
+	} else if t.List {
 		k += "_l"
 		if t.ItemNonNull {
 			k += "i"
